@@ -67,20 +67,28 @@ def subpixel_pcc(
             )
         )
 
-        _lshift = (shifts + _max_shifts) * upsample_factor
-        _rshift = (_max_shifts - shifts) * upsample_factor
-        power = crop_by_max_shifts(
-            power, _lshift.astype(np.int32), _rshift.astype(np.int32), backend
+        # The zero displacement of the upsampled region sits at index `dftshift`.
+        # Restrict the search to the entries that stay within max_shifts.
+        _lshift = ((shifts + _max_shifts) * upsample_factor).astype(np.int32)
+        _rshift = ((_max_shifts - shifts) * upsample_factor).astype(np.int32)
+        _dft_center = int(dftshift)
+        starts = [max(_dft_center - int(_l), 0) for _l in _lshift]
+        slices = tuple(
+            slice(_s0, min(_dft_center + int(_r) + 1, _size), None)
+            for _s0, _r, _size in zip(starts, _rshift, power.shape)
         )
+        power = power[slices]
 
+        local_maxima = backend.asnumpy(
+            backend.unravel_index(backend.argmax(power), power.shape)
+        )
         maxima = (
-            backend.asnumpy(
-                backend.unravel_index(backend.argmax(power), power.shape)
-            ).astype(np.float32)
+            local_maxima.astype(np.float32)
+            + np.array(starts, dtype=np.float32)
             - dftshift
         )
         shifts = shifts + maxima / upsample_factor
-        pcc = math.sqrt(backend.asnumpy(power[tuple(int(round(m)) for m in maxima)]))
+        pcc = math.sqrt(backend.asnumpy(power[tuple(int(m) for m in local_maxima)]))
     else:
         pcc = math.sqrt(backend.asnumpy(power[tuple(maxima)]))
     return shifts, pcc
